@@ -941,3 +941,529 @@ def _pairs_cb(cbname):
 
 _pairs_cb("points")
 _pairs_cb("pattern")
+
+
+# ---------------------------------------------------------------------------------------------
+# function calls and list expressions (C10)
+# ---------------------------------------------------------------------------------------------
+
+def _sorted_toks(E, sorts):
+    b = B(E)
+    return [b.tok(s, "R") for s in sorts]
+
+
+@register
+class Cb_func_params(_Cb):
+    cb = "func_params"
+    cases = ["s", "i", "ss", "sf", "sis", "bfs"]
+    props = ("C10",)
+    doc = "1..3 parameters (shape-bounded), every value sort"
+
+    def build(self, E, case):
+        return (mk_tr(E), _sorted_toks(E, case)), {}
+
+    def ensures(self, E, case, args, kwargs, out):
+        tr, t = args
+        yield "comma-joined-verbatim-in-order", out.kind == "return" and S.eq(out.value, S.join(",", [vstr(x.value) for x in t]))
+
+
+@register
+class Cb_func_call(_Cb):
+    cb = "func_call"
+    props = ("C10",)
+
+    def build(self, E, case):
+        b = B(E)
+        return (mk_tr(E), [b.tok("s", "UNQUOTED_STRING"), E.str("params")]), {}
+
+    def ensures(self, E, case, args, kwargs, out):
+        tr, t = args
+        ok = same_token(out, t[0])
+        yield "returns-name-token", ok
+        if ok and E.symbolic:
+            name = E.ctx.symbols["t1.value"]
+            yield "(name(params))", S.eq(t[0].value, S.concat("(", name, "(", t[1], "))"))
+
+
+@register
+class Cb_list(_Cb):
+    cb = "list"
+    cases = ["s", "i", "ss", "si", "sfs"]
+    props = ("C10",)
+    doc = "1..3 elements (shape-bounded); elements are written with their source text"
+
+    def build(self, E, case):
+        return (mk_tr(E), _sorted_toks(E, case)), {}
+
+    def ensures(self, E, case, args, kwargs, out):
+        tr, t = args
+        ok = same_token(out, t[0])
+        yield "returns-first-token", ok
+        if ok:
+            texts = [x.text if isinstance(x, TokenM) else str(x) for x in t]
+            yield "{elements-verbatim}", S.eq(t[0].value, S.concat("{", S.join(",", texts), "}"))
+
+
+@register
+class Cb_start(_Cb):
+    cb = "start"
+    cases = ["one", "two"]
+    props = ("C02",)
+    modifies = ()
+
+    def build(self, E, case):
+        ds = [E.odict(entries=[("__type__", "map")]), E.odict(entries=[("__type__", "layer")])]
+        return (mk_tr(E), ds[:1] if case == "one" else ds), {}
+
+    def ensures(self, E, case, args, kwargs, out):
+        tr, t = args
+        if case == "one":
+            yield "single-root-is-the-dict", out.kind == "return" and out.value is t[0]
+        else:
+            yield "several-roots-are-the-list-in-order", out.kind == "return" and out.value is t
+
+
+# ---------------------------------------------------------------------------------------------
+# METADATA / VALIDATION / VALUES / CONNECTIONOPTIONS
+# ---------------------------------------------------------------------------------------------
+
+from pyvc.absx import LoopSpec, AbsColl, AbsSeqList, Seg, add_fact  # noqa: E402
+
+
+def _abs_acc(E, name, ci=True, factory=None, lazy=None, absent=(), pycls=None):
+    from mappyfile.ordereddict import CaseInsensitiveOrderedDict
+    d = E.absdict(name, entries=[], pycls=pycls or CaseInsensitiveOrderedDict, ci=ci, factory=factory, absent=absent)
+    d.tail["lazy"] = lazy or (lambda E, key: E.fresh(S.STR, "oldval"))
+    return d
+
+
+class ValuePairsLoop(LoopSpec):
+    def carried(self, E, L, coll):
+        from mappyfile.ordereddict import CaseInsensitiveOrderedDict
+        return {"d": _abs_acc(E, "d@iter", factory=CaseInsensitiveOrderedDict, absent=("__position__", "__type__", "__comments__"))}
+
+    def exit_state(self, E, L, coll):
+        from mappyfile.ordereddict import CaseInsensitiveOrderedDict
+        d = _abs_acc(E, "d@exit", factory=CaseInsensitiveOrderedDict, absent=("__position__", "__type__", "__comments__"))
+        d.tail["fold_of"] = coll
+        return {"d": d}
+
+    def element(self, E, case, coll):
+        return string_pair_factory(E, "pair")
+
+    def step(self, E, pre, post, elem, case):
+        d = post["d"]
+        K = S.lower(remove_quotes_spec(elem[0].value))
+        V = remove_quotes_spec(elem[1].value)
+        ok = len(d.entries) == 1
+        yield "exactly-this-key-written", ok
+        if ok:
+            yield "key-unquoted-lower-cased", S.eq(d.entries[0][0], K)
+            yield "value-unquoted(last-wins)", S.eq(d.entries[0][1], V)
+
+
+def _cpd_at_call(self, E, tr, key_token, values):
+    """create_position_dict at a call site whose value list is an abstract run"""
+    from pyvc import models
+    I = E.interp
+    if isinstance(values, AbsColl):
+        from collections import OrderedDict
+        d = MDict(pycls=OrderedDict)
+        models.mdict_setitem(I, d, "line", key_token.line, log=False)
+        models.mdict_setitem(I, d, "column", key_token.column, log=False)
+        if I.ctx.branch(models.py_truth(I, values)):
+            models.mdict_setitem(I, d, "values", Seg("positions-of-flatten", values), log=False)
+        return d
+    fn = __import__("mappyfile.transformer", fromlist=["x"]).MapfileTransformer.create_position_dict
+    saved = I.contracts.pop("mappyfile.transformer.MapfileTransformer.create_position_dict")
+    try:
+        return I.call_function(fn, [tr, key_token, values], {})
+    finally:
+        I.contracts["mappyfile.transformer.MapfileTransformer.create_position_dict"] = saved
+
+
+CreatePositionDict.at_call = _cpd_at_call
+
+
+@register
+class ProcessValuePairs(Contract):
+    target = "mappyfile.transformer.MapfileTransformer.process_value_pairs"
+    cases = ["empty:pos", "empty:nopos", "pairs:pos", "pairs:nopos"]
+    props = ("C02", "C08", "C13")
+    loops = {1: ValuePairsLoop()}
+    loop_cases = {1: ["pairs:pos", "pairs:nopos"]}
+    doc = "for METADATA, VALIDATION, VALUES, CONNECTIONOPTIONS (type_ symbolic over the four names)"
+
+    def build(self, E, case):
+        shape, pos = case.split(":")
+        type_ = E.str("type_")
+        E.assume(S.in_const_set(type_, ("metadata", "validation", "values", "connectionoptions")))
+        b = B(E)
+        key = b.tok("s", "KEY")
+        E.assume(S.eq(S.lower(key.value), type_))
+        end = b.tok("s", "_END")
+        E.assume(S.eq(S.lower(end.value), "end"))
+        if shape == "empty":
+            toks = [key, end]
+        else:
+            toks = E.absseq("body", [key], string_pair_factory, [end], min_len=1)
+        return (mk_tr(E, pos=(pos == "pos")), toks, type_), {}
+
+    def ensures(self, E, case, args, kwargs, out):
+        tr, toks, type_ = args
+        shape, pos = case.split(":")
+        ok = out.kind == "return" and isinstance(out.value, MDict)
+        yield "returns-dict", ok
+        if not ok:
+            return
+        d = out.value
+        from mappyfile.ordereddict import CaseInsensitiveOrderedDict
+        yield "class", d.pycls is CaseInsensitiveOrderedDict and d.factory is CaseInsensitiveOrderedDict
+        key = toks.head[0] if isinstance(toks, AbsSeqList) else toks[0]
+        want = (["__position__"] if pos == "pos" else []) + ["__type__"]
+        yield "bookkeeping-keys-after-the-pairs", [k for k in d.keys()] == want
+        if [k for k in d.keys()] != want:
+            return
+        yield "type-last-lower-cased", S.eq(d["__type__"], S.lower(key.value))
+        if shape == "pairs":
+            yield "pairs-folded", d.tail is not None and d.tail.get("fold_of") is toks.middle
+        else:
+            yield "no-pairs", d.tail is None
+        if pos == "pos":
+            pd = d["__position__"]
+            yield "position-of-opener", isinstance(pd, MDict) and S.and_(S.eq(pd["line"], key.line), S.eq(pd["column"], key.column))
+
+
+def _value_block_cb(cbname):
+    class C(_Cb):
+        cb = cbname
+        cases = ["delegates"]
+        props = ("C02",)
+
+        def build(self, E, case):
+            toks, key, run = _block_tokens(E, cbname, string_pair_factory, "pairs", min_len=0)
+            return (mk_tr(E), toks), {}
+
+        def ensures(self, E, case, args, kwargs, out):
+            yield "process_value_pairs(tokens, type)", out.kind == "return" and isinstance(out.value, Seg) and out.value.key[0] == "process_value_pairs" \
+                and out.value.key[1] is args[1] and out.value.key[2] == cbname
+    C.__name__ = "Cb_" + cbname
+    return register(C)
+
+
+ProcessValuePairs.at_call = lambda self, E, tr, tokens, type_: Seg("process_value_pairs", tokens, type_)
+for _n in ("metadata", "validation", "values", "connectionoptions"):
+    _value_block_cb(_n)
+
+
+# ---------------------------------------------------------------------------------------------
+# composite  (the fold of a block's items into its dictionary)
+# ---------------------------------------------------------------------------------------------
+
+def _tok_tables():
+    from mappyfile.tokens import SINGLETON_COMPOSITE_NAMES, REPEATED_KEYS, OBJECT_LIST_KEYS
+    return dict(singleton=sorted(SINGLETON_COMPOSITE_NAMES), repeated=tuple(REPEATED_KEYS), olk=sorted(OBJECT_LIST_KEYS))
+
+
+def block_type_names():
+    names = []
+    for sh in LS.shapes("composite_type"):
+        lit = keyword_literal(sh[0][1])
+        names.append(lit.lower())
+    return sorted(set(names) | {"metadata", "validation", "values", "connectionoptions", "symbolset"})
+
+
+def plural_spec(s):
+    return S.concat(s, S.ite(S.endswith(s, "s"), "es", "s"))
+
+
+calc_depth_ghost = {}
+
+
+def _lazy_composite_value(E, key):
+    """value of an unknown earlier key of the dictionary under construction (arbitrary accumulator state)"""
+    t = _tok_tables()
+    I = E.interp
+    if I.ctx.branch(S.eq(key, "config")):
+        return _abs_acc(E, "cfg@old")
+    if I.ctx.branch(S.eq(key, "points")):
+        depth = E.fresh(S.INT, "olddepth")
+        E.assume(S.or_(S.eq(depth, 2), S.eq(depth, 3)))
+        return [Seg("old-points", depth)]
+    return [Seg("old-items", key)]          # a list for plural / repeated keys; overwritten for simple keys
+
+
+def _lazy_position_value(E, key):
+    I = E.interp
+    if I.ctx.branch(S.eq(key, "config")):
+        from collections import OrderedDict
+        d = E.absdict("cfgpos@old", entries=[], pycls=OrderedDict)
+        d.tail["lazy"] = lambda E, k: Seg("old-pos")
+        return d
+    if I.ctx.branch(S.eq(key, "points")):
+        if I.ctx.branch(E.fresh(S.BOOL, "oldpos_is_dict")):
+            from collections import OrderedDict
+            return MDict(pycls=OrderedDict, entries=[("line", E.fresh(S.INT, "l")), ("column", E.fresh(S.INT, "c"))])
+        return [Seg("old-positions", key)]
+    return [Seg("old-positions", key)]
+
+
+def _calculate_depth_model(I, x):
+    if isinstance(x, list) and x and isinstance(x[0], Seg):
+        if x[0].key[0] == "old-points":
+            return x[0].key[1]
+        if x[0].key[0] == "pairs":
+            return 2
+    raise NotImplementedError("calculate_depth on " + repr(x))
+
+
+def _install_calc_depth():
+    from pyvc import models
+    import mappyfile.transformer as T
+    models.EXTRA_MODELS[T.calculate_depth] = _calculate_depth_model
+
+
+_install_calc_depth()
+
+COMPOSITE_ELEM_CASES = ["child:singleton", "child:plural", "attr:config", "attr:points", "attr:repeated",
+                        "attr:simple", "attr:simple+comments", "attr:repeated+comments"]
+
+
+class CompositeLoop(LoopSpec):
+    elem_cases = COMPOSITE_ELEM_CASES
+
+    def _state(self, E, L, tag):
+        from collections import OrderedDict
+        from mappyfile.ordereddict import CaseInsensitiveOrderedDict
+        tr = L["self"]
+        cd = _abs_acc(E, "composite_dict@" + tag, factory=CaseInsensitiveOrderedDict, lazy=_lazy_composite_value)
+        cd.entries.append(["__type__", L["composite_dict"]["__type__"]])
+        out = {"composite_dict": cd}
+        pos_on = tr.include_position
+        com_on = tr.include_comments
+        if pos_on is True or (S.is_sym(pos_on)):
+            pass
+        if L.get("position_dict") is not None:
+            pd = E.absdict("position_dict@" + tag, entries=[("line", L["position_dict"]["line"]), ("column", L["position_dict"]["column"])], pycls=OrderedDict)
+            pd.tail["lazy"] = _lazy_position_value
+            cd.entries.append(["__position__", pd])
+            out["position_dict"] = pd
+        if "comments_dict" in L:
+            cm = E.absdict("comments_dict@" + tag, entries=[], pycls=OrderedDict)
+            cm.tail["lazy"] = lambda E, k: Seg("old-comments")
+            cd.entries.append(["__comments__", cm])
+            out["comments_dict"] = cm
+        cd.tail["absent"] = ()
+        return out
+
+    def carried(self, E, L, coll):
+        return self._state(E, L, "iter")
+
+    def exit_state(self, E, L, coll):
+        st = self._state(E, L, "exit")
+        st["composite_dict"].tail["fold_of"] = coll
+        return st
+
+    def element(self, E, case, coll):
+        from collections import OrderedDict
+        t = _tok_tables()
+        kind = case.split("+")[0]
+        with_comments = case.endswith("+comments")
+        if kind.startswith("child:"):
+            k = E.str("child.type")
+            sing = S.in_const_set(k, t["singleton"])
+            E.assume(sing if kind == "child:singleton" else S.not_(sing))
+            E.assume(S.eq(S.lower(k), k))
+            # __type__ of a child block: the lower-cased text of one of the grammar's block keywords
+            # (postcondition of composite / process_value_pairs: closed under the rule graph)
+            E.assume(S.in_const_set(k, block_type_names()))
+            from mappyfile.ordereddict import CaseInsensitiveOrderedDict
+            d = E.absdict("child", entries=[("__type__", k)], pycls=CaseInsensitiveOrderedDict, ci=True, factory=CaseInsensitiveOrderedDict)
+            d.tail["lazy"] = lambda E, key: E.fresh(S.STR, "childval")
+            return d
+        pos = MDict(pycls=OrderedDict, entries=[("line", E.int("el.line")), ("column", E.int("el.column"))])
+        entries = [("__position__", pos)]
+        if kind == "attr:config":
+            sub = E.str("cfg.key")
+            E.assume(S.eq(S.lower(sub), sub))
+            cfg = MDict(pycls=dict, entries=[(sub, E.str("cfg.val"))])
+            entries.append(("config", cfg))
+        else:
+            entries.append(("__tokens__", [Seg("tokens")]))
+            if kind == "attr:points":
+                entries.append(("points", [Seg("pairs", "new")]))
+            else:
+                key = E.str("el.key")
+                E.assume(S.eq(S.lower(key), key))
+                E.assume(S.not_(S.startswith(key, "__")))
+                E.assume(S.and_(key != "config", key != "points"))
+                # keywords known to the schema: none is called line / column (the fields of a position record)
+                E.assume(S.and_(key != "line", key != "column"))
+                rep = S.in_const_set(key, t["repeated"])
+                E.assume(rep if kind == "attr:repeated" else S.not_(rep))
+                entries.append((key, E.str("el.value")))
+        if with_comments:
+            entries.append(("__comments__", E.abslist("el.comments", length=E.int("ncomments"))))
+            E.assume(entries[-1][1].info["length"] >= 0)
+        return MDict(pycls=OrderedDict, entries=entries)
+
+    # ---- helpers for the step obligations -------------------------------------------------------------
+    @staticmethod
+    def _changes(pre_entries, d):
+        """(unchanged?, new/changed entries) comparing explicit entries by position"""
+        same = True
+        for i, (k, v) in enumerate(pre_entries):
+            if i >= len(d.entries):
+                return False, []
+            k2, v2 = d.entries[i]
+            if not (k2 is k or (S.sort_of(k) is not None and S.truthy(S.eq(k, k2)) is True)) or v2 is not v:
+                same = False
+        return same, d.entries[len(pre_entries):]
+
+    def step(self, E, pre, post, elem, case):
+        t = _tok_tables()
+        tr = post["self"]
+        cd = post["composite_dict"]
+        snap = pre["$entries"]
+        kind = case.split("+")[0]
+        pd = post.get("position_dict")
+        cm = post.get("comments_dict")
+        cd_pre = snap[id(cd)]
+        same_cd, new_cd = self._changes(cd_pre, cd)
+        yield "earlier-keys-untouched", same_cd
+        if pd is not None:
+            same_pd, new_pd = self._changes(snap[id(pd)], pd)
+            yield "earlier-positions-untouched", same_pd
+        else:
+            new_pd = []
+        if cm is not None:
+            same_cm, new_cm = self._changes(snap[id(cm)], cm)
+            yield "earlier-comments-untouched", same_cm
+        else:
+            new_cm = []
+        yield "exactly-one-key-touched", len(new_cd) == 1
+        if len(new_cd) != 1:
+            return
+        k_new, v_new = new_cd[0]
+        if kind.startswith("child:"):
+            k = elem["__type__"]
+            yield "child-position-not-hoisted", len(new_pd) == 0 and len(new_cm) == 0
+            if kind == "child:singleton":
+                yield "stored-under-its-type", S.eq(k_new, k)
+                yield "as-nested-dict", v_new is elem
+            else:
+                yield "stored-under-plural-key", S.eq(k_new, plural_spec(k))
+                yield "appended-in-source-order", isinstance(v_new, list) and len(v_new) >= 1 and v_new[-1] is elem and \
+                    (len(v_new) == 1 or (len(v_new) == 2 and isinstance(v_new[0], Seg) and v_new[0].key[0] == "old-items"))
+            return
+        pos = elem.entries[0][1] if False else None
+        # the element dict has been consumed: its bookkeeping keys were popped
+        pos = [v for k, v in (snap.get(id(elem)) or []) if (not S.is_sym(k)) and k == "__position__"]
+        pos = pos[0] if pos else None
+        if kind == "attr:config":
+            yield "config-key", S.eq(k_new, "config")
+            sub, val = snap[id(elem)][1][1].entries[0]
+            ok = isinstance(v_new, MDict) and v_new.ci and len(v_new.entries) == 1
+            yield "settings-dict-is-case-insensitive-and-updated", ok
+            if ok:
+                yield "setting", S.and_(S.eq(v_new.entries[0][0], sub), S.eq(v_new.entries[0][1], val))
+            if pd is not None:
+                good = len(new_pd) == 1 and S.truthy(S.eq(new_pd[0][0], "config")) is True and isinstance(new_pd[0][1], MDict) and len(new_pd[0][1].entries) == 1
+                yield "config-position-per-setting", good
+                if good:
+                    yield "setting-position", S.eq(new_pd[0][1].entries[0][0], sub) and new_pd[0][1].entries[0][1] is pos
+            return
+        if kind == "attr:points":
+            yield "points-key", S.eq(k_new, "points")
+            new_pairs = [v for k, v in snap[id(elem)] if (not S.is_sym(k)) and k == "points"][0]
+            ok = isinstance(v_new, list) and len(v_new) >= 1
+            yield "points-list", ok
+            if ok:
+                if v_new is new_pairs:
+                    yield "first-POINTS-stored-as-pair-list", True
+                else:
+                    yield "repeated-POINTS-one-level-deeper", v_new[-1] is new_pairs and (
+                        (len(v_new) == 2 and isinstance(v_new[0], list) and len(v_new[0]) == 1 and isinstance(v_new[0][0], Seg) and S.truthy(S.eq(v_new[0][0].key[1], 2)) is not False)
+                        or (len(v_new) == 2 and isinstance(v_new[0], Seg)))
+            if pd is not None:
+                good = len(new_pd) == 1 and S.truthy(S.eq(new_pd[0][0], "points")) is True
+                yield "points-position", good
+                if good:
+                    pv = new_pd[0][1]
+                    yield "points-position-value", pv is pos or (isinstance(pv, list) and pv[-1] is pos)
+            return
+        key, value = [(k, v) for k, v in snap[id(elem)] if S.is_sym(k)][0]
+        yield "key", S.eq(k_new, key)
+        if kind == "attr:repeated":
+            yield "value-appended-in-source-order", isinstance(v_new, list) and len(v_new) >= 1 and v_new[-1] is value and \
+                (len(v_new) == 1 or (len(v_new) == 2 and isinstance(v_new[0], Seg)))
+            if pd is not None:
+                good = len(new_pd) == 1 and isinstance(new_pd[0][1], list) and len(new_pd[0][1]) >= 1
+                yield "position-appended", good and S.eq(new_pd[0][0], key) and new_pd[0][1][-1] is pos
+            yield "comments-of-repeated-keywords-not-hoisted", len(new_cm) == 0
+        else:
+            yield "value-stored(last-wins)", v_new is value
+            if pd is not None:
+                good = len(new_pd) == 1
+                yield "position-hoisted", good and S.eq(new_pd[0][0], key) and new_pd[0][1] is pos
+            if cm is not None and case.endswith("+comments"):
+                comments = [v for k, v in snap[id(elem)] if (not S.is_sym(k)) and k == "__comments__"][0]
+                n = comments.info["length"]
+                yield "comments-hoisted-iff-any", S.ite(n > 0, len(new_cm) == 1 and (len(new_cm) == 1 and new_cm[0][1] is comments), len(new_cm) == 0)
+                if len(new_cm) == 1:
+                    yield "comments-under-the-keyword", S.eq(new_cm[0][0], key)
+            elif cm is not None:
+                yield "no-comment-invented", len(new_cm) == 0
+
+
+@register
+class Cb_composite(_Cb):
+    cb = "composite"
+    cases = ["passthrough", "block:nopos:nocom", "block:pos:nocom", "block:nopos:com", "block:pos:com", "block-empty:pos:com"]
+    props = ("C02", "C08", "C13", "C14")
+    loops = {1: CompositeLoop()}
+    loop_cases = {1: ["block:nopos:nocom", "block:pos:nocom", "block:nopos:com", "block:pos:com"]}
+    doc = ("the dictionary of a block is the fold, in source order, of its items by the statement's per-item rule "
+           "(singleton / plural list / repeated keyword / CONFIG merge / POINTS nesting / last value wins), on top of "
+           "{__type__, [__position__], [__comments__]}; proved for one arbitrary item and an arbitrary accumulator")
+
+    def build(self, E, case):
+        if case == "passthrough":
+            d = E.odict(entries=[("__type__", "metadata")])
+            return (mk_tr(E), [d]), {}
+        parts = case.split(":")
+        b = B(E)
+        kt = b.tok("s", "COMPOSITE_TYPE")
+        if parts[0] == "block-empty":
+            items = []
+        else:
+            items = E.absseq("items", [], lambda E, tag: None, [], min_len=0)
+        tr = mk_tr(E, pos=(parts[1] == "pos"), com=(parts[2] == "com"))
+        return (tr, [[kt], items]), {}
+
+    def ensures(self, E, case, args, kwargs, out):
+        tr, t = args
+        if case == "passthrough":
+            yield "already-processed-block-returned", out.kind == "return" and out.value is t[0]
+            return
+        parts = case.split(":")
+        kt = t[0][0]
+        ok = out.kind == "return" and isinstance(out.value, MDict)
+        yield "returns-dict", ok
+        if not ok:
+            return
+        d = out.value
+        from mappyfile.ordereddict import CaseInsensitiveOrderedDict
+        yield "class", d.pycls is CaseInsensitiveOrderedDict and d.factory is CaseInsensitiveOrderedDict
+        want = ["__type__"] + (["__position__"] if parts[1] == "pos" else []) + (["__comments__"] if parts[2] == "com" else [])
+        yield "bookkeeping-keys", d.keys() == want
+        if d.keys() != want:
+            return
+        yield "type-lower-cased", S.eq(d["__type__"], S.lower(kt.value))
+        if parts[1] == "pos":
+            pd = d["__position__"]
+            yield "opener-position", isinstance(pd, MDict) and S.and_(S.eq(pd["line"], kt.line), S.eq(pd["column"], kt.column))
+        if parts[0] == "block":
+            yield "items-folded", d.tail is not None and d.tail.get("fold_of") is t[1].middle
+        else:
+            yield "no-items", d.tail is None
